@@ -8,10 +8,13 @@ CONSTANTS
   MaxFail = 1
   MaxSync = 1
   Eager = TRUE
+  SendHoldsLock = TRUE
+  MaxApply = 0
+  Gated = {FALSE}
   Hist = TRUE
   EmitMode = "settled"
 VIEW View
-INVARIANTS TypeOK OrderPreserved BatchBound AcceptedAreSurvivors QueueIsSuffix LossCounted LossExact SentCounted DrainComplete
+INVARIANTS TypeOK OrderPreserved BatchBound AcceptedAreSurvivors QueueIsSuffix LossCounted LossExact AllAccepted SentCounted DrainComplete
 PROPERTIES DropOldest
 ACTION_CONSTRAINT Emit
 CHECK_DEADLOCK FALSE
